@@ -333,8 +333,17 @@ def run_history(tree, hist, H, seed):
                     continue
                 t = targets[(h["ord"] - 1) % len(targets)]
                 ev.update(op="mutate", via=i + 1)
-                if act == "MutAppend":
-                    t.append(rnd.choice(["new", H.tags.b("n"), ["n1", None, "n2"]]))
+                if act == "MutAttr" and rnd.random() < 0.4 and any(isinstance(v_, H.HTML) for v_ in t.values()):
+                    k_ = [k_ for k_, v_ in t.items() if isinstance(v_, H.HTML)][0]
+                    t[k_] += " more"
+                elif act == "MutAppend":
+                    htmls = [j_ for j_, c_ in enumerate(t) if isinstance(c_, H.HTML)]
+                    if htmls and rnd.random() < 0.5:
+                        # `+=` on an HTML() child: an operator on the element, which is then stored back into the list
+                        j_ = rnd.choice(htmls)
+                        t[j_] += rnd.choice(["<more>", H.HTML("<u>m</u>")])
+                    else:
+                        t.append(rnd.choice(["new", H.tags.b("n"), ["n1", None, "n2"]]))
                 elif act == "MutAttr":
                     rnd.choice([lambda: t.update(z="1"), lambda: t.__setitem__("class", "k"), lambda: t.update({"id": "q"}, id="r")])()
                 elif act == "MutName":
@@ -584,6 +593,15 @@ def eq_record(g, H):
         xs = build(t, H)
         return xs[0]
     ra, rb = mk(a), mk(b)
+    if g.get("renamed") and isinstance(ra, H.Tag) and isinstance(rb, H.Tag):
+        # built under another name (also a raw-text or a void one) and renamed through the public attribute: what counts
+        # is what the tag is now
+        first = g["renamed"]
+        fa = H.Tag(first, *ra.children, _add_ws=ra.add_ws)
+        fa.attrs.update(ra.attrs)
+        fa.get_html_string() if not any(True for _ in _tfys(fa, H)) else None
+        fa.name = ra.name
+        ra = fa
     try:
         got = bool(ra == rb)
     except Exception:  # noqa
@@ -720,7 +738,7 @@ class C08(_Base):
                     gens.append({"kind": "hist", "tree": t, "hist": hist, "seed": 0})
         for _ in range(400 if tier == "quick" else 8000):
             a, b = variants(rnd, eq_tree(rnd))
-            gens.append({"kind": "eq", "a": a, "b": b})
+            gens.append({"kind": "eq", "a": a, "b": b, "renamed": rnd.choice([None, None, "script", "br", "style", "span"])})
         # JSX components are tagifiable too: their tagify() result must not share metadata nodes with them
         from . import jsxprop
         j = jsxprop.C20()
